@@ -34,13 +34,17 @@ CLAIMED = {
     ),
     "C19": (
         "Coq proof (invariants by induction over arbitrary message histories; prefix lemmas; refutations by computed witnesses) + correspondence on the real FaultLog + breadth-first history search",
-        "13 theorems in coq/props/C19.v about coq/model/M_Faultlog.v (= FaultLog._insert_into_map/_process_msg over an association-list "
+        "16 theorems in coq/props/C19.v about coq/model/M_Faultlog.v (= FaultLog._insert_into_map/_process_msg over an association-list "
         "OrderedDict): for EVERY message history no entry is invented, the view never raises (map values = keys of the entry store), "
         "indices are unique; read-through from an empty view and push-down on a gap-free view are proved (_partial); the full "
         "no-duplicates / push-down / read-through statements are REFUTED with witnesses that are replayed on the implementation "
         "(KNOWN_FINDINGS.json). Against the property's 64-deep log (LOG_DEPTH is the property's constant, MAXIDX is regenerated from "
         "FaultLog._MAX_LOG_IDX): the cut-off is the last slot, NO history puts an entry at an index beyond the log, and for a completely "
-        "known log of any length a delivered announcement leaves the view equal to the controller's new log. "
+        "known log of any length a delivered announcement leaves the view equal to the controller's new log. For EVERY history without "
+        "loss (new entries announced and delivered, replies for indexes not beyond the position reached; any interleaving, re-reads, the "
+        "log filling to its full depth) the view is exactly the controller's log down to the position reached, and a read-through from "
+        "there reaches the whole log -- the property's positive clauses at full strength; only histories WITH losses or skipped reads "
+        "fall under the refuted statements. "
         "Tie: _insert_into_map on random+reachable maps and whole histories of real 0418 messages through "
         "the real class are compared with the model (maps incl. order, entry store); the oracle enumerates controller-consistent "
         "histories breadth-first on the real function and classifies every violation by cause; a second oracle drives the real class "
@@ -87,7 +91,7 @@ CLAIMED = {
         "single spaces). Tie: Command(frame), Packet.from_port, Command._from_attrs on generated frames/attributes vs the model "
         "(printed text, every field, src/dst, outcome class); log lines written by the real packet logger and read back the way "
         "FileTransport does vs the model's replay_line. Oracle: str(Command(f)) == f, len, Packet/Command agreement, CLI short "
-        "forms, valid-by-construction frames never rejected, logged packets read back equal with the SAME timestamp.",
+        "forms, EVERY sequence number (---, 000-255) in every spelling (text, int, empty/None) through _from_attrs and four CLI shapes, valid-by-construction frames never rejected, logged packets read back equal with the SAME timestamp.",
         "Trusted: Coq kernel, translator, harness. The log-line theorem is not stated in Coq (timestamp/partition text algebra): the "
         "log round trip is decided by correspondence + oracle on the real logger (TZ=UTC); from_cli is oracle-only.",
         "6 (C02)",
@@ -279,9 +283,11 @@ CLAIMED = {
         "verb, from the addressed device, repeating the context positions, not an array, any payload otherwise -- has exactly the "
         "expected header; conversely whatever carries the expected (or the request's own) header has the request's code, verb, device "
         "and context, so a packet differing in any of those is not taken for the reply/echo; the two classes where pairing fails are "
-        "refuted by witnesses (known findings). PARTIAL: the FSM's matching rule (placeholder substitution, 0418 null-entry exception) "
-        "is transcribed in the oracle, not modelled; that constructors' payloads put the context at the modelled positions is C03's "
-        "subject. Tie: ~1000 (thorough ~5000) frames of every code x verb x 3 address shapes x 14 device types: model header and "
+        "refuted by witnesses (known findings). PARTIAL: the FSM's matching rule on top of the headers (placeholder substitution, 0418 "
+        "null-entry exception) is not in the Coq model: every echo / reply / near-miss decision of the oracle is taken by the REAL "
+        "IsInIdle.cmd_sent -> WantEcho.pkt_rcvd -> WantRply.pkt_rcvd on a recording stand-in context, and the rule as the model states it "
+        "is compared with each of those decisions (a correspondence of its own); that constructors' payloads put the context at the "
+        "modelled positions is C03's subject. Tie: ~1000 (thorough ~5000) frames of every code x verb x 3 address shapes x 14 device types: model header and "
         "rx_header = Packet._hdr and pkt_header(rx_header=True), incl. the raising cases.",
         "Trusted: Coq kernel, translator (tables), harness. Modelled not verified: addresses as (type, number); AssertionError inside "
         "_has_array as 'no context' (pkt_header's except clause).",
@@ -299,7 +305,10 @@ CLAIMED = {
         "payload gets the whole element in the array path (this is what failed for 2249 before fix 072cff6). PARTIAL: 'JSON-serialisable', "
         "'the same whatever was decoded before' and per-field decoding of the ~109 parsers are not theorems -- decided by the oracle on "
         "payloads generated from every (verb, code) regex in lowest/highest/random modes: json.dumps, decode again / after others / in "
-        "reverse order, arrays of 1..8 elements vs their elements, reported indexes vs the frame, ranges by key name.",
+        "reverse order, arrays of 1..8 elements vs their elements, reported indexes vs the frame, ranges by key name; plus a byte sweep: "
+        "one real-world packet per (code, verb, length) carrying a ratio or temperature (the repository's parser logs), every byte set to "
+        "boundary values (all 256 in the thorough tier). The two decoders the range theorems are about (hex_to_percent at both "
+        "resolutions, hex_to_temp) are compared with the model over their whole domains inside this check.",
         "Trusted: Coq kernel (PrimFloat primitives in the two range sweeps), translator (element lengths + AST shape), harness. "
         "Modelled not verified: element decoders other than the 30C9/2309 temperature arrays (which are compared bit for bit).",
         "6 (C05)",
